@@ -95,6 +95,10 @@ fn observe(b: &Board, m: &mut Map<String, Value>) {
     m.insert("bocc".into(), json!(bb_squares(*b.color_combined(Color::Black))));
     m.insert("stm".into(), json!((p.stm as char).to_string()));
     m.insert("cr".into(), json!(cr_list(p.cr)));
+    // the side-relative accessors of the same rights, and the colour-blind piece sets
+    m.insert("mycr".into(), json!(b.my_castle_rights().to_index()));
+    m.insert("theircr".into(), json!(b.their_castle_rights().to_index()));
+    m.insert("kinds".into(), json!(ALL_PIECES.iter().map(|p| bb_squares(*b.pieces(*p))).collect::<Vec<_>>()));
     m.insert("ep_raw".into(), json!(b.en_passant().map(|s| s.to_index() as i64).unwrap_or(-1)));
     m.insert("chk".into(), json!(bb_squares(*b.checkers())));
     m.insert("pin".into(), json!(bb_squares(*b.pinned())));
@@ -206,10 +210,14 @@ fn board_chunk(rng: &mut Rng, events: usize, out: &mut dyn Write) {
                     if add && !backed {
                         continue;
                     }
-                    if add {
-                        b.add_castle_rights(c, which);
-                    } else {
-                        b.remove_castle_rights(c, which);
+                    let mine = c == b.side_to_move();
+                    match (add, rng.chance(1, 2), mine) {
+                        (true, false, _) => b.add_castle_rights(c, which),
+                        (false, false, _) => b.remove_castle_rights(c, which),
+                        (true, true, true) => b.add_my_castle_rights(which),
+                        (true, true, false) => b.add_their_castle_rights(which),
+                        (false, true, true) => b.remove_my_castle_rights(which),
+                        (false, true, false) => b.remove_their_castle_rights(which),
                     }
                     ev.insert("event".into(), json!("Rights"));
                     ev.insert("add".into(), json!(add));
@@ -424,9 +432,18 @@ fn game_chunk(rng: &mut Rng, events: usize, out: &mut dyn Write, claims: bool) {
     let mut n = 0;
     while n < events {
         let text = GAME_FENS[rng.below(GAME_FENS.len())];
-        let mut g = Game::from_str(text).expect("start fen");
+        // the four ways of starting a game must give the same game
+        #[allow(deprecated)]
+        let (mut g, via) = match rng.below(4) {
+            0 => (Game::from_str(text).expect("start fen"), "from_str"),
+            1 => (Game::new_with_board(Board::from_str(text).expect("start fen")), "new_with_board"),
+            2 => (Game::new_from_fen(text).expect("start fen"), "new_from_fen"),
+            _ if text == "rnbqkbnr/pppppppp/8/8/8/8/PPPPPPPP/RNBQKBNR w KQkq - 0 1" => (Game::new(), "new"),
+            _ => (Game::from_str(text).expect("start fen"), "from_str"),
+        };
         let mut ev = Map::new();
         ev.insert("event".into(), json!("GameNew"));
+        ev.insert("via".into(), json!(via));
         ev.insert("text".into(), json!(text));
         observe_game(&g, &mut ev);
         writeln!(out, "{}", Value::Object(ev)).unwrap();
